@@ -116,7 +116,7 @@ def PcOk (hd tl ln : Nat) : Pc → Prop
   | .pushStore _ n => n + 1 = ln ∧ n = tl + 1
   | .popLoadTail h => h ≤ hd
   | .popLoadNext h => h ≤ hd ∧ h < tl
-  | .popCAS h n => h < tl ∧ n = some (h + 1)
+  | .popCAS h n => h ≤ hd ∧ h < tl ∧ n = some (h + 1)
   | .popRead n => n ≤ hd
   | .popClear n _ => n ≤ hd
   | _ => True
@@ -136,7 +136,7 @@ theorem PcOk_mono {hd tl ln hd' tl' ln' : Nat} {pc : Pc} (h1 : hd ≤ hd') (h2 :
     (h3 : isPushPost pc = true → tl' = tl ∧ ln' = ln) (h : PcOk hd tl ln pc) :
     PcOk hd' tl' ln' pc := by
   cases pc <;> simp only [PcOk, isPushPost, forall_const, false_implies, Bool.false_eq_true] at * <;>
-    first | omega | exact ⟨by omega, h.2⟩
+    first | omega | exact ⟨by omega, by omega, h.2.2⟩
 
 theorem finish_pc_cases (th : Thread) :
     th.finish.pc = .idle ∨ (∃ v, th.finish.pc = .pushLoadTail v) ∨ th.finish.pc = .popLoadHead ∨
@@ -367,7 +367,7 @@ theorem inv_step {s : State} (hI : Inv s) (i : Nat) : Inv (step .addThenStore s 
     | popCAS h n =>
       dsimp only
       simp only [hpc, PcOk] at hloc
-      obtain ⟨hlt, rfl⟩ := hloc
+      obtain ⟨_, hlt, rfl⟩ := hloc
       split
       · rename_i hhd
         simp only []
